@@ -4729,7 +4729,9 @@ def parseNestedParens(s, handleLiteral=1):
     @raise MismatchedNesting: Raised if the number or placement
     of opening or closing parenthesis is invalid.
     """
-    s = s.strip()
+    # Surrounding whitespace is deliberately not stripped: outside of quoted
+    # strings and literals splitQuoted ignores it anyway, and the last bytes
+    # of s may be the whitespace that ends a literal.
     inQuote = 0
     contentStack = [[]]
     try:
